@@ -38,6 +38,18 @@ fn check_n(n: usize, rec: &mut Rec) {
     } else if explicit {
         rec.cov("chunked/caller-named-coding");
         crate::drive::body_sender_ex(None, true, false, if n % 2 == 0 { 128 } else { 0 })
+    } else if n % 15 == 5 {
+        // the head was written once more after it was complete
+        rec.cov("chunked/after-an-extra-head-write");
+        crate::drive::body_sender_ex(None, false, false, 256)
+    } else if n % 15 == 8 {
+        // escape hatch on a request whose only transfer-encoding is not a framing header
+        rec.cov("chunked/despite-method-with-gzip");
+        crate::drive::body_sender_ex(None, false, false, 2 | 1024 | (((n / 15) % 4) as u16) << 5)
+    } else if n % 15 == 11 {
+        // escape hatch on a flow produced by a redirect whose original was chunked
+        rec.cov("chunked/redirected-flow");
+        crate::drive::body_sender_ex(None, false, false, 2048)
     } else {
         body_sender(None, false, false)
     };
@@ -209,6 +221,9 @@ impl Property for P {
             ("length/n>0".into(), 10000),
             ("chunked/http10-request".into(), 5000),
             ("chunked/caller-named-coding".into(), 3000),
+            ("chunked/after-an-extra-head-write".into(), 1500),
+            ("chunked/despite-method-with-gzip".into(), 1500),
+            ("chunked/redirected-flow".into(), 1500),
             ("one-flow/empty-write-without-room".into(), 500),
             ("one-flow/advertised-write".into(), 5000),
         ]
